@@ -29,6 +29,9 @@ import (
 type Case struct {
 	Argv []string `json:"argv"`           // shrunk vector (quoted tokens)
 	Orig []string `json:"orig,omitempty"` // vector as generated, when it was shrunk
+	// Pre: vectors parsed (each with its own fresh FlagSet) in the same process before Argv.
+	// Only set for state-leak violations, where Argv is the canary vector.
+	Pre [][]string `json:"pre,omitempty"`
 }
 
 func quoteTokens(t []string) []string {
@@ -161,6 +164,14 @@ func diffCfg(want, got *Cfg) string {
 		return "D"
 	case !bytes.Equal(want.By, got.By):
 		return "By"
+	case want.LB != got.LB:
+		return "LB"
+	case want.LN != got.LN:
+		return "LN"
+	case want.LS != got.LS:
+		return "LS"
+	case want.LU != got.LU:
+		return "LU"
 	}
 	return ""
 }
@@ -184,33 +195,40 @@ func eval(tokens []string, fx *fixture) (kind, expected, observed string, o outc
 	argvReal := fx.subst(tokens)
 	o = refParse(argvModel, files{valid: fx.valid})
 	r := runReal(argvReal)
+	kind, expected, observed = judge(&o, &r, argvModel, argvReal)
+	return kind, expected, observed, o
+}
+
+// judge compares the outcome of the model with what the real parser did.
+func judge(op *outcome, rp *realResult, argvModel, argvReal []string) (kind, expected, observed string) {
+	o, r := *op, *rp
 	switch {
 	case r.panicked != "":
-		return "panic", "no panic (model: " + describe(o) + ")", "panic: " + r.panicked, o
+		return "panic", "no panic (model: " + describe(o) + ")", "panic: " + r.panicked
 	case r.newErr != nil:
-		return "newflagset-error", "NewFlagSet(&Cfg{}) = nil error", r.newErr.Error(), o
+		return "newflagset-error", "NewFlagSet(&Cfg{}) = nil error", r.newErr.Error()
 	case o.class != "" && r.err == nil:
 		return "accepted-bad:" + o.class, "Parse returns an error (" + o.class + ")",
-			fmt.Sprintf("nil; Args=%q ShowUsage=%v cfg=%s", r.args, r.usage, showCfg(&r.cfg)), o
+			fmt.Sprintf("nil; Args=%q ShowUsage=%v cfg=%s", r.args, r.usage, showCfg(&r.cfg))
 	case o.class == "" && r.err != nil:
-		return "rejected-good", "nil; " + describe(o), "error: " + r.err.Error(), o
+		return "rejected-good", "nil; " + describe(o), "error: " + r.err.Error()
 	case o.class != "":
-		return "", "", "", o
+		return "", "", ""
 	case !sameStrings(o.args, r.args):
-		return "args-differ", fmt.Sprintf("Args()=%q", o.args), fmt.Sprintf("Args()=%q", r.args), o
+		return "args-differ", fmt.Sprintf("Args()=%q", o.args), fmt.Sprintf("Args()=%q", r.args)
 	case !sameStrings(argvReal, argvModel):
-		return "argv-modified", fmt.Sprintf("the caller's slice still is %q", argvModel), fmt.Sprintf("%q", argvReal), o
+		return "argv-modified", fmt.Sprintf("the caller's slice still is %q", argvModel), fmt.Sprintf("%q", argvReal)
 	case o.usage != r.usage:
-		return "usage-differ", fmt.Sprintf("ShowUsage()=%v", o.usage), fmt.Sprintf("ShowUsage()=%v", r.usage), o
+		return "usage-differ", fmt.Sprintf("ShowUsage()=%v", o.usage), fmt.Sprintf("ShowUsage()=%v", r.usage)
 	}
 	if f := diffCfg(&o.cfg, &r.cfg); f != "" {
-		return "field-differ:" + f, "cfg=" + showCfg(&o.cfg), "cfg=" + showCfg(&r.cfg), o
+		return "field-differ:" + f, "cfg=" + showCfg(&o.cfg), "cfg=" + showCfg(&r.cfg)
 	}
-	return "", "", "", o
+	return "", "", ""
 }
 
 func showCfg(c *Cfg) string {
-	return fmt.Sprintf("{B:%v N:%d I64:%d UI:%d U64:%d S:%q F:%v D:%s By:%q}", c.B, c.N, c.I64, c.UI, c.U64, c.S, c.F, c.D, c.By)
+	return fmt.Sprintf("{B:%v N:%d I64:%d UI:%d U64:%d S:%q F:%v D:%s By:%q LB:%v LN:%d LS:%q LU:%d}", c.B, c.N, c.I64, c.UI, c.U64, c.S, c.F, c.D, c.By, c.LB, c.LN, c.LS, c.LU)
 }
 
 func describe(o outcome) string {
@@ -223,21 +241,28 @@ func describe(o outcome) string {
 func keyOf(kind string, tokens []string) string {
 	q := quoteTokens(tokens)
 	s := strings.ReplaceAll(strings.Join(q, ","), " ", `\x20`)
+	s = longAliases.Replace(s) // the long flag names are abbreviated in keys (not in the case)
+	kind = longAliases.Replace(kind)
 	if len(s) > 200 {
 		s = s[:200] + "..."
 	}
 	return kind + ":[" + s + "]"
 }
 
+var longAliases = strings.NewReplacer(nameLS, "<LS200>", nameLN, "<LN65>", nameLB, "<LB64>", nameLU, "<LU63>")
+
 // shrink removes tokens one at a time as long as the same kind of disagreement remains, so
 // that the violation key names a minimal vector.
-func shrink(tokens []string, kind string, fx *fixture) []string {
+func shrink(tokens []string, kind string, fx *fixture, log *[][]string) []string {
 	cur := append([]string(nil), tokens...)
 	for changed := true; changed; {
 		changed = false
 		for w := 3; w >= 1; w-- { // windows of 3, 2, 1 tokens (a flag and its separate value go together)
 			for i := 0; i+w <= len(cur); i++ {
 				cand := append(append([]string(nil), cur[:i]...), cur[i+w:]...)
+				if log != nil && len(*log) < 400 {
+					*log = append(*log, quoteTokens(cand))
+				}
 				if k, _, _, _ := eval(cand, fx); k == kind {
 					cur, changed = cand, true
 					i--
@@ -268,9 +293,10 @@ type mon struct{}
 func (mon) Name() string { return "cfgargs" }
 
 func (mon) Level(string) (string, string) {
-	return "exploration", "argument vectors run through the real NewFlagSet(&Cfg{9 types})+Parse and through a reference parser of the documented grammar; compared: error-vs-nil, Args(), ShowUsage(), all 9 field values, no panic. " +
-		"Exhaustive: every vector of length <= 5 (quick) / <= 6 (thorough, 17.9M) over the 16-token alphabet of DESIGN.md C10, plus every vector of length <= 3 (quick) / <= 4 (thorough) with one -config form (=valid file, =missing file, =invalid JSON, =empty, separate-token valid) inserted at every position; " +
-		"random: seeded vectors of <= 12 tokens from well-formed flags of all 9 types in all 4 spellings, near-misses, repeated flags, bool+stray value, unknown names, flag-like values and arbitrary byte strings (quick 1e6, thorough 1e7). " +
+	return "exploration", "argument vectors run through the real NewFlagSet(&Cfg{9 types + 4 flags with 63/64/65/200-byte names})+Parse and through a reference parser of the documented grammar; compared: error-vs-nil, Args(), ShowUsage(), all 13 field values, no panic. " +
+		"Exhaustive: every vector of length <= 5 (quick) / <= 6 (thorough, 17.9M) over the 16-token alphabet of DESIGN.md C10, plus every vector of length <= 3 (quick) / <= 4 (thorough) with one -config form (=valid file, =missing file, =invalid JSON, =empty, separate-token valid) inserted at every position; plus every vector of length <= 4 (quick) / <= 5 (thorough) over a second 16-token alphabet that mixes the long-named flags in all spellings (-n=v, --n=v, -n v, bare bool, '=' inside the value, near-miss names) with 7 tokens of the first; " +
+		"random: seeded vectors of <= 12 tokens from well-formed flags of all 13 flags (9 types, long names) in all 4 spellings, near-misses, repeated flags, bool+stray value, unknown names, flag-like values and arbitrary byte strings (quick 1e6, thorough 1e7). " +
+		"After every case a fixed canary vector is parsed again with a fresh FlagSet (Parse must not depend on earlier Parse calls in the process). " +
 		"distinct_nontrivial = distinct parser paths: the tokens the reference parser looked at (up to and including the token it stopped or failed on), counted only when at least one token was a flag token"
 }
 
@@ -285,22 +311,23 @@ func (mon) Assumptions(string) []string {
 }
 
 type shardArgs struct {
-	Kind   string `json:"kind"` // "exh" | "rand"
-	MaxLen int    `json:"max_len,omitempty"`
-	CfgLen int    `json:"cfg_len,omitempty"`
-	Part   int    `json:"part"`
-	Parts  int    `json:"parts"`
-	Count  int    `json:"count,omitempty"`
+	Kind    string `json:"kind"` // "exh" | "rand"
+	MaxLen  int    `json:"max_len,omitempty"`
+	MaxLen2 int    `json:"max_len2,omitempty"` // second sweep (long-named flags)
+	CfgLen  int    `json:"cfg_len,omitempty"`
+	Part    int    `json:"part"`
+	Parts   int    `json:"parts"`
+	Count   int    `json:"count,omitempty"`
 }
 
 func (mon) Plan(prop, tier string, seed int64) []drv.Shard {
 	var out []drv.Shard
-	maxLen, cfgLen, nrand, parts := 5, 3, 1000000, 16
+	maxLen, maxLen2, cfgLen, nrand, parts := 5, 4, 3, 1000000, 16
 	if tier == "thorough" {
-		maxLen, cfgLen, nrand = 6, 4, 10000000
+		maxLen, maxLen2, cfgLen, nrand = 6, 5, 4, 10000000
 	}
 	for p := 0; p < parts; p++ {
-		a, _ := json.Marshal(shardArgs{Kind: "exh", MaxLen: maxLen, CfgLen: cfgLen, Part: p, Parts: parts})
+		a, _ := json.Marshal(shardArgs{Kind: "exh", MaxLen: maxLen, MaxLen2: maxLen2, CfgLen: cfgLen, Part: p, Parts: parts})
 		out = append(out, drv.Shard{Name: fmt.Sprintf("exh-%d", p), Args: a})
 	}
 	for p := 0; p < parts; p++ {
@@ -316,6 +343,29 @@ type runner struct {
 	sum     map[string]int64
 	evals   int64
 	samples map[string]bool
+
+	canaryOn bool    // the canary vector is parsed again after every case
+	canaryO  outcome // what the model says about it
+}
+
+// The canary: Parse has to be a function of its argument vector (and the files it names) only.
+// A fixed vector that was parsed correctly at the start of the shard is parsed again, with a
+// fresh FlagSet, after every case; a disagreement then is caused by state that an earlier
+// Parse left behind in the package - the later vector gets "a silently different assignment".
+var canary = []string{"-b", "--help", "-" + nameLB, "-n", "5", "-s=a=b", "rest", "--"}
+
+func (rn *runner) canaryCheck() (kind, expected, observed string) {
+	argv := append([]string(nil), canary...)
+	r := runReal(argv)
+	return judge(&rn.canaryO, &r, canary, argv)
+}
+
+// leak reports a state-leak violation; pre are the vectors parsed since the canary last agreed.
+func (rn *runner) leak(kind, what string, culprit []string, pre [][]string, e, ob string) {
+	cs := Case{Argv: quoteTokens(canary), Pre: pre}
+	rn.c.Violate(keyOf("state-leak:"+kind+":"+what, culprit), cs,
+		"Parse(canary) does not depend on earlier Parse calls of other FlagSets: "+e, ob)
+	rn.c.Note("shard stopped after a state-leak violation: the package state of this process is no longer trustworthy")
 }
 
 // exec evaluates one vector; false = stop the shard (enough violations).
@@ -363,8 +413,15 @@ func (rn *runner) exec(tokens []string) bool {
 			rn.c.Sample(map[string]any{"argv": quoteTokens(tokens), "model": describe(o)})
 		}
 	}
+	if rn.canaryOn {
+		if ck, ce, cob := rn.canaryCheck(); ck != "" {
+			rn.leak(ck, "after", tokens, [][]string{quoteTokens(tokens)}, ce, cob)
+			return false
+		}
+	}
 	if kind != "" {
-		min := shrink(tokens, kind, rn.fx)
+		var log [][]string
+		min := shrink(tokens, kind, rn.fx, &log)
 		_, e2, ob2, _ := eval(min, rn.fx)
 		if e2 != "" {
 			e, ob = e2, ob2
@@ -374,6 +431,12 @@ func (rn *runner) exec(tokens []string) bool {
 			cs.Orig = quoteTokens(tokens)
 		}
 		rn.c.Violate(keyOf(kind, min), cs, e, ob)
+		if rn.canaryOn {
+			if ck, ce, cob := rn.canaryCheck(); ck != "" {
+				rn.leak(ck, "while-shrinking", tokens, log, ce, cob)
+				return false
+			}
+		}
 		return rn.c.NumViolations() < 20
 	}
 	return true
@@ -397,6 +460,13 @@ func (mn mon) Run(sh drv.Shard, c *drv.Ctx) {
 	defer fx.cleanup()
 	rn := &runner{c: c, fx: fx, sum: map[string]int64{}, samples: map[string]bool{}}
 	defer rn.flush()
+	// the canary is an ordinary case first; it is used as canary only if it is parsed correctly
+	var ck string
+	ck, _, _, rn.canaryO = eval(canary, fx)
+	if !rn.exec(canary) {
+		return
+	}
+	rn.canaryOn = ck == ""
 	switch a.Kind {
 	case "exh":
 		runExhaustive(rn, a)
@@ -437,6 +507,21 @@ func (mn mon) Replay(v drv.Violation, c *drv.Ctx) {
 		return
 	}
 	defer fx.cleanup()
+	if len(cs.Pre) > 0 {
+		// state-leak case: parse the recorded vectors first, in this process, then the canary
+		for _, q := range cs.Pre {
+			if t, err := unquoteTokens(q); err == nil {
+				eval(t, fx)
+				c.Eval(1)
+			}
+		}
+		k, e, o := runCase(cs, fx)
+		c.Eval(1)
+		if k != "" {
+			c.Violate(v.Key, cs, e, o)
+		}
+		return
+	}
 	k, e, o := runCase(cs, fx)
 	c.Eval(1)
 	if k != "" {
